@@ -109,6 +109,7 @@ def gen_case(rng):
     net["init_pos_std"] = 1e-3
     net["save_filter_steps"] = False
     net["maneuver_detection"] = None
+    netkit.maybe_sub_second_start(net, rng)
     # sensors of the same type with different stated noise: imported observations must carry their own sensor's metadata
     if len(net["sensors"]) > 1 and rng.random() < 0.6:
         for s in net["sensors"][1:]:
